@@ -180,6 +180,10 @@ def judge_registry(part, b, ty, ent, decl=None):
         part.cell(b, ty, "name_order")
     one = "3ff0000000000000" if b == "f64" else None
     for u in ent["units"]:
+        # method-call syntax on the concrete unit type must give what the trait (and so every generic code path) gives
+        for mk, tk in (("m_scale", "scale_enc"), ("m_is_ref", "is_ref"), ("m_name", "name"), ("m_symbol", "symbol"), ("m_prefix", "prefix")):
+            if mk in u and tk in u and u[mk] != u[tk]:
+                viol(part, b, ty, "method_shadows_trait", "%s.%s() called as a method gives %r, the trait method gives %r" % (u["dbg"], mk[2:], u[mk], u[tk]), extra=u["dbg"] + mk)
         aq = u["as_qty"]
         a_ok = (aq["a"] == one) if b == "f64" else (frac_of(aq["a"], b) == 1)
         if aq["u"] != u["dbg"] or not a_ok:
